@@ -227,6 +227,20 @@ Definition iter_ok : ev := Iter [0; 0; 0].
 (* upper bound on the number of all-OK iterations that empty every buffer *)
 Definition mu (s : st) : Z := len (espbuf s) + len (odata (ob s)) + (SDP_SIZE + TAG_SIZE) * len (outq s).
 
+(* ---------- vocabulary of the specification ---------- *)
+(* a is obtained from b by deleting elements (order kept, nothing added or repeated) *)
+Inductive Subseq {A} : list A -> list A -> Prop :=
+  | ss_nil : forall l, Subseq [] l
+  | ss_keep : forall x a b, Subseq a b -> Subseq (x :: a) (x :: b)
+  | ss_skip : forall x a b, Subseq a b -> Subseq a (x :: b).
+(* a packet as srpc_async_call builds it *)
+Definition pkt_ok (p : pkt) : Prop :=
+  0 < p_rr p < 4294967296 /\ 0 <= p_call p < 4294967296 /\ 0 <= p_ver p < 256 /\
+  bytes_ok (p_data p) /\ len (p_data p) <= MAX_DATA_SIZE.
+(* an event the C interface can express: 32-bit call id, payload made of bytes *)
+Definition ev_ok (e : ev) : Prop :=
+  match e with Call cid pl => 0 <= cid < 4294967296 /\ bytes_ok pl | Iter _ => True end.
+
 (* ---------- wire interface for the harness ----------
    0 CALL <call_id> : payload        1 ITER r1 r2 r3 :        2 DS <k> <call_id> <size> : struct image
    (DS: the typed entry point k must issue call_id with the first <size> bytes of the image; call_id 0 = the wrapper refuses) *)
